@@ -80,3 +80,73 @@ func (fc *fileCase) boundaries() []int64 {
 	}
 	return out
 }
+
+// genHandFileDAG hand-assembles a well-formed file DAG (correct FileSize / BlockSizes / Tsize) whose chunks may be empty
+// at leading, middle or trailing positions - shapes no chunker emits but any writer may store. Leaves are raw blocks or
+// dag-pb File nodes; with `levels` == 3 the chunks are grouped under intermediate nodes.
+func genHandFileDAG(t *rapid.T) *fileCase {
+	n := rapid.IntRange(1, 7).Draw(t, "nchunks")
+	pbLeaves := rapid.Bool().Draw(t, "pbLeaves")
+	var chunks [][]byte
+	var data []byte
+	pattern := ""
+	for i := 0; i < n; i++ {
+		var c []byte
+		if rapid.IntRange(0, 2).Draw(t, "empty") == 0 {
+			pattern += "0"
+		} else {
+			c = lcgBytes(rapid.IntRange(1, 5).Draw(t, "clen"), byte(i+1), 0)
+			pattern += "x"
+		}
+		chunks = append(chunks, c)
+		data = append(data, c...)
+	}
+	leaf := func(c []byte) (*mnode, uint64) {
+		if pbLeaves {
+			return &mnode{HasData: true, UFS: &ufsFields{Type: 2, HasData: true, Data: c, FileSize: u64p(uint64(len(c)))}}, uint64(len(c))
+		}
+		return &mnode{IsRaw: true, Raw: c}, uint64(len(c))
+	}
+	interior := func(kids []*mnode, sizes []uint64) (*mnode, uint64) {
+		m := &mnode{HasData: true, UFS: &ufsFields{Type: 2}}
+		tot := uint64(0)
+		for i, k := range kids {
+			// Tsize only has to be right for raw leaves (the reader trusts it); cumulative sizes are not the subject here
+			m.Links = append(m.Links, mlink{Tsize: i64p(int64(sizes[i])), Child: k})
+			m.UFS.BlockSizes = append(m.UFS.BlockSizes, sizes[i])
+			tot += sizes[i]
+		}
+		m.UFS.FileSize = u64p(tot)
+		return m, tot
+	}
+	var kids []*mnode
+	var sizes []uint64
+	for _, c := range chunks {
+		k, s := leaf(c)
+		kids, sizes = append(kids, k), append(sizes, s)
+	}
+	levels := 2
+	if n >= 3 && rapid.Bool().Draw(t, "threeLevels") {
+		levels = 3
+		cut := rapid.IntRange(1, n-1).Draw(t, "cut")
+		a, as := interior(kids[:cut], sizes[:cut])
+		b, bs := interior(kids[cut:], sizes[cut:])
+		kids, sizes = []*mnode{a, b}, []uint64{as, bs}
+	}
+	root, _ := interior(kids, sizes)
+	st := NewStore()
+	c, err := root.store(st, st.LinkSystem())
+	if err != nil {
+		t.Fatalf("harness: storing hand-made file: %v", err)
+	}
+	fc := &fileCase{St: st, Root: c, Data: data, Writer: fmt.Sprintf("hand-%s-pb=%v-l%d", pattern, pbLeaves, levels), W: n, CS: 1}
+	fc.Tree, err = st.FileTree(c, 0)
+	if err != nil {
+		t.Fatalf("harness: model: %v", err)
+	}
+	if fc.Tree.End != int64(len(data)) {
+		t.Fatalf("harness: model length %d != %d", fc.Tree.End, len(data))
+	}
+	fc.Desc = fmt.Sprintf("hand-made file chunks=%s (0 = empty) pbLeaves=%v levels=%d len=%d", pattern, pbLeaves, levels, len(data))
+	return fc
+}
